@@ -21,6 +21,7 @@ theorem seqRes_ok_all (tag : Nat) : ∀ (l : List Res) (acc o : List Nat), seqRe
     | stubChain => simp [seqRes] at h
     | outOfFuel => simp [seqRes] at h
     | dangling => simp [seqRes] at h
+    | notFound => simp [seqRes] at h
 
 theorem evalNode_ok_stable {heap heap' : List CloData} {rec rec' : Nat → Ref → Res} {d j : Nat} {o : List Nat}
     (hheap : ∀ cd, heap[j]? = some cd → heap'[j]? = some cd)
